@@ -181,7 +181,9 @@ func configText(sc Scenario, root string, servers []string, variant string) stri
 	switch variant {
 	case "valid":
 		fields = "[facility, level, time, host, app, pid, source, extradata, log, kind, added]"
-		extra = "  - type: addFields\n    fields:\n      added: reloaded\n"
+		// the new field is set for some records only (those whose extracted kind is "cls"): a field of the extended schema
+		// that is optional must still be empty in every record that does not set it, whatever record object it is built on
+		extra = "  - type: if\n    match:\n      kind: cls\n    then:\n      - type: addFields\n        fields:\n          added: reloaded\n"
 	case "incompatible":
 		keys = "[app, source]"
 	}
